@@ -2,6 +2,7 @@ package main
 
 import (
 	"go/token"
+	"go/types"
 	"strings"
 
 	"golang.org/x/tools/go/ssa"
@@ -226,6 +227,86 @@ func checkC21(p *Prog, r *Report) {
 			r.check(subSkip && rootKept, rule, "sub-packages are pruned, the globbed package is not", p.pos(cb.Pos()), fnName(cb), "SkipDir under isBuildFile && dir != root", "the walk does not prune directories that contain a BUILD file (or prunes the package being globbed)")
 			r.check(plzSkip, rule, "plz-out is pruned", p.pos(cb.Pos()), fnName(cb), "SkipDir under name == \"plz-out\"", "the walk descends into plz-out")
 		}
+	}
+	// (5b) the cached walk result is shared by every later pattern: nothing may overwrite its elements
+	{
+		rl := "E8.cached-walk-not-overwritten"
+		var cachedD func(v ssa.Value, d int) bool
+		cachedD = func(v ssa.Value, d int) bool {
+			if d > 12 || v == nil {
+				return false
+			}
+			switch x := v.(type) {
+			case *ssa.Field:
+				if st, ok := x.X.Type().Underlying().(*types.Struct); ok && strings.HasSuffix(typeString(x.X.Type()), "fs.walkedDir") {
+					_ = st
+					return true
+				}
+				return cachedD(x.X, d+1)
+			case *ssa.UnOp:
+				if x.Op != token.MUL {
+					return false
+				}
+				if k := fieldKey(x.X); strings.HasPrefix(k, "fs.walkedDir.") {
+					return true
+				}
+				if a, ok := x.X.(*ssa.Alloc); ok {
+					for _, sv := range storesTo(a) {
+						if cachedD(sv, d+1) {
+							return true
+						}
+					}
+				}
+				return false
+			case *ssa.Slice:
+				return cachedD(x.X, d+1)
+			case *ssa.Phi:
+				for _, e := range x.Edges {
+					if cachedD(e, d+1) {
+						return true
+					}
+				}
+				return false
+			case *ssa.Call:
+				if b, ok := x.Call.Value.(*ssa.Builtin); ok && b.Name() == "append" {
+					return cachedD(x.Call.Args[0], d+1)
+				}
+				return false
+			}
+			return false
+		}
+		cached := func(v ssa.Value) bool { return cachedD(v, 0) }
+		n, bad := 0, 0
+		var site token.Pos
+		for _, fn := range p.Funcs("fs") {
+			if topFunc(fn).Name() == "walkDir" {
+				continue // the function that fills the cache
+			}
+			eachInstr(fn, false, func(_ *ssa.Function, i ssa.Instruction) {
+				switch x := i.(type) {
+				case *ssa.Store:
+					if ia, ok := x.Addr.(*ssa.IndexAddr); ok && cached(ia.X) {
+						n++
+						bad++
+						site = x.Pos()
+					}
+				case *ssa.Call:
+					b, ok := x.Call.Value.(*ssa.Builtin)
+					if !ok || b.Name() != "append" || !cached(x.Call.Args[0]) {
+						return
+					}
+					n++
+					// appending behind the cached elements is harmless; appending onto a shortened view overwrites them
+					for y := range backSlice(x.Call.Args[0], SliceOpts{}) {
+						if sl, ok := y.(*ssa.Slice); ok && sl.High != nil && cached(sl.X) {
+							bad++
+							site = x.Pos()
+						}
+					}
+				}
+			})
+		}
+		r.check(bad == 0, rl, "no store into, or append onto a shortened view of, the cached file list", p.pos(site), "fs.Globber.glob", itoa(n)+" append/store site(s) on slices taken from the walk cache, none inside the cached length", "glob() filters in place on the slice held in the walk cache (`cached[:0]` + append, or an indexed store): every pattern overwrites the first entries of the cached listing with its own results, so later patterns and later glob() calls of the same BUILD file lose files or return duplicates")
 	}
 	// (6)
 	rule = "E7.cache-key-covers-walk-inputs"
